@@ -40,11 +40,31 @@ func checkC06(c *Ctx) {
 			}
 			nRet++
 			cv, isC := constOf(ret.Results[0])
+			underAllow := guarded(f, ret, Atom{"c.enableCovertAllowlist", true})
 			if !isC {
-				okAll = false
+				// `return [!]anyContains(c.<list>, addr)`: a helper of the package that answers true exactly under a
+				// Contains match of an element of the list it is handed stands for the two constant returns of the loop
+				v, neg := stripNot(returnedValue(ret, 0, nil))
+				hc, isCall := v.(*ssa.Call)
+				if !isCall {
+					okAll = false
+					return
+				}
+				hf := helperCallee(f, &hc.Call)
+				list := ""
+				if hf != nil && len(hc.Call.Args) == 2 && anyContainsHelper(hf) && pathOf(hc.Call.Args[1]) == "addr" {
+					list = pathOf(hc.Call.Args[0])
+				}
+				switch {
+				case list == "c.covertAllowlistSubnets" && neg && underAllow:
+					nRet++ // allowed iff in the allowlist
+				case list == "c.covertBlocklistSubnets" && !neg && !underAllow:
+					nRet++ // blocklisted iff in the blocklist
+				default:
+					okAll = false
+				}
 				return
 			}
-			underAllow := guarded(f, ret, Atom{"c.enableCovertAllowlist", true})
 			inAllowMatch := guardedM(f, ret, func(cnd string, pol bool) bool {
 				return pol && strings.Contains(cnd, "c.covertAllowlistSubnets[") && strings.HasSuffix(cnd, ".Contains(addr)")
 			})
@@ -506,4 +526,52 @@ func checkCovertGuard(c *Ctx, rule string, listsOnly bool) {
 			}
 		}
 	}
+}
+
+// anyContainsHelper: h(list, addr) ranges over its slice parameter and answers true only under a Contains match of the
+// loop element on its second parameter, false otherwise (constant returns only).
+func anyContainsHelper(h *ssa.Function) bool {
+	if h == nil || len(h.Params) != 2 || h.Signature.Results().Len() != 1 {
+		return false
+	}
+	list, addr := pname(h.Params[0]), pname(h.Params[1])
+	ranges := false
+	for _, b := range h.Blocks {
+		if b.Comment != "rangeindex.loop" || len(b.Instrs) == 0 {
+			continue
+		}
+		if iff, ok := b.Instrs[len(b.Instrs)-1].(*ssa.If); ok {
+			if bo, ok := iff.Cond.(*ssa.BinOp); ok {
+				if ln, ok := bo.Y.(*ssa.Call); ok && len(ln.Call.Args) == 1 && ln.Call.Args[0] == ssa.Value(h.Params[0]) {
+					ranges = true
+				}
+			}
+		}
+	}
+	if !ranges {
+		return false
+	}
+	okAll, nTrue, nFalse := true, 0, 0
+	eachInstr(h, func(in ssa.Instruction) {
+		ret, ok := in.(*ssa.Return)
+		if !ok {
+			return
+		}
+		cv, isC := constOf(ret.Results[0])
+		if !isC {
+			okAll = false
+			return
+		}
+		match := guardedM(h, ret, func(cnd string, pol bool) bool {
+			return pol && strings.HasPrefix(cnd, list+"[") && strings.HasSuffix(cnd, ".Contains("+addr+")")
+		})
+		if cv.String() == "true" {
+			nTrue++
+			okAll = okAll && match
+		} else {
+			nFalse++
+			okAll = okAll && !match
+		}
+	})
+	return okAll && nTrue > 0 && nFalse > 0
 }
